@@ -61,8 +61,11 @@ macro_rules! world_codec {
 pub fn codec(lib: &str, dir: &str, hex: &str) -> String {
     let Some(bytes) = crate::unhex(hex) else { return "bad-op".into() };
     match lib {
+        #[cfg(feature = "vanilla")]
         "vanilla" => world_codec!(vanilla, dir, bytes.as_slice()),
+        #[cfg(feature = "tbc")]
         "tbc" => world_codec!(tbc, dir, bytes.as_slice()),
+        #[cfg(feature = "wrath")]
         "wrath" => world_codec!(wrath, dir, bytes.as_slice()),
         l if l.starts_with("login") => {
             let v: u32 = l[5..].parse().unwrap_or(0);
@@ -99,8 +102,11 @@ macro_rules! world_decode {
 /// decode only (C03): `ok` | `err <kind>`; panics are caught by the caller
 pub fn decode_only(lib: &str, dir: &str, bytes: &[u8]) -> String {
     match lib {
+        #[cfg(feature = "vanilla")]
         "vanilla" => world_decode!(vanilla, dir, bytes),
+        #[cfg(feature = "tbc")]
         "tbc" => world_decode!(tbc, dir, bytes),
+        #[cfg(feature = "wrath")]
         "wrath" => world_decode!(wrath, dir, bytes),
         l if l.starts_with("login") => {
             let v: u32 = l[5..].parse().unwrap_or(0);
